@@ -1,4 +1,5 @@
 import LexVerif.Proof.ParseNumberDebugApi
+import LexVerif.Proof.ParseNumberDebugRescanApi
 /-!
 # C10 in debug-assertion builds (`Cfg.debug = true`)
 
@@ -345,9 +346,10 @@ theorem regression_intfrac_counts_8digit_block :
 Of the 15 `peek` variants (`noskip` + 14 predicates) two are covered for the integer and fraction components:
 `noskip` (no flag) and `iltc` (all four flags: every run of separators is skipped unconditionally, independent
 of the neighbouring bytes, so the first pass and the re-scan of the stored slice agree and `peek` never returns
-the separator). The exponent component may use **any** of the 15; the special iterator too. The other 13
-predicates (`i l t il it lt ilt ic lc tc ilc itc ltc`) on the integer / fraction component are not covered
-(`itc` is refuted by the witnesses of Part 1; the rest is the `def` below). -/
+the separator). The exponent component may use **any** of the 15; the special iterator too. This class is about
+`parse_number` started in ANY state (`parseNumber_no_panic_debug_iltc`); the other 12 predicates
+(`i l t il it lt ilt ic lc tc ilc ltc`) on the integer / fraction component are covered for the entry points in
+Part 5 (`itc` is refuted by the witnesses of Part 1). -/
 
 open LexVerif.Proof.PNDebug (matchesB) in
 structure ValidIltc (c : Cfg) (o : POpts) : Prop where
@@ -423,15 +425,32 @@ example : ValidIltc ⟨fRadixFormat, ⟨0xa0a0a006400005f00000fff0000000c⟩, tr
 example : (parseFloatSyntax ⟨fFormat, ⟨0xa0a0a000000005f00000fff0000000c⟩, true⟩ {} false
     ([49, 95, 50, 46, 95, 51, 95] ++ inFrac.drop 6 ++ [48, 49, 50, 95])).toBool = true := by decide +kernel
 
-/-! ## Full statement (target, not proved): every valid format outside the two witnessed classes
+/-! ## Part 5 — the full statement: every valid format outside the two witnessed classes (PROVED, entry points)
 
-Proved sub-classes: Parts 2–4 (integer / fraction component `noskip` or `iltc`; exponent and special arbitrary).
-Open: integer / fraction component with one of `i l t il it lt ilt ic lc tc ilc ltc` (and `itc` on the integer
-without base prefix) — there the first pass and the re-scan of the stored slice have to be shown to take the same
-skip decisions (they differ only in the bytes before the slice start and after its end, and in
-`current_count() == 0`; note that for `parse_number` called on an arbitrary cursor with non-zero counts or a digit
-before the cursor this is false, so the statement is about the entry points). Supported by the searches described
-at the top (15×15 flag combinations × template inputs, 550k random parses: no other panicking class), not by a proof. -/
+Hypotheses: `formatError = none`, `check_radix!`, `is_valid_options_punctuation`, a feature record cargo can produce,
+`NoCaseClash` (second witnessed class excluded) and `RescanSafe` (first witnessed class excluded: no I+T+C on the
+fraction; I+T+C on the integer only without base prefix). The integer and the fraction component may carry ANY of the
+other separator predicates (`i l t il it lt ilt ic lc tc ilc ltc`, `noskip`, `iltc`), the exponent and special
+iterators any of the 15. Conclusion for `parse_complete` / `parse_partial` (`parseFloatSyntax`), `debug = true` (and,
+same proof, `false`), EVERY input (the model's `List Nat`, also "bytes" ≥ 256): never `Err.panic`, never `Err.fault`.
+
+Proof (`Proof/ParseNumberDebug{Bridge,Sim,Rescan,RescanFacts,RescanMain,RescanApi}.lean`):
+* `peek` does not look at `Cfg.debug`; the first pass (`parse_digits`: steps over digits only) and `skip_zeros` (steps
+  over `'0'` only) return in the debug build what the release build returns (`parseDigitsLoop_rel`, `skipZerosLoop_rel`);
+* the first pass and the re-scan of the stored slice take the same skip decisions (`rescan_sim2`, built on
+  `holds_weaker` / `nbr_slice` of `Proof/SepLocal*.lean`; unlike `Sep.Rescan` it does not need the byte behind the
+  region to be a non-separator — `parse_number` also re-scans when the first pass stopped on a separator its predicate
+  refused, before `parse_complete` rejects the input): the release-build `parse_digits` restarted on the stored
+  slice runs through all of it (`rescan_pred2`; `rescan_itc_start` for I+T+C started on a non-separator);
+* hence every byte `peek` returns during `parse_u64_digits` on the slice is a digit: `step_unchecked` is never on the
+  separator, the overflow check holds (`u64Loop1_run_safe`); `skip_zeros` on the slice walks along the same run
+  (`skipZeros_u64ok`);
+* entry conditions: `parse_mantissa_sign` / `is_consumed` leave the digit counts 0 and the cursor in a state `peek`
+  left (`PeekStable`); the base-prefix phase touches no count; the integer digits start behind the prefix letter or in
+  a state `peek` left, the fraction digits behind the decimal point — neither is a digit or the separator
+  (`prefix_not_digit_sep`, `dp_not_digit`, from validity + `NoCaseClash`).
+`parse_number` started mid-buffer is NOT covered by this part (and the statement is false there:
+`witness_parseNumber_midbuffer`). -/
 
 /-- why the open part is stated for the entry points only: `parse_number` started in the middle of a buffer (digit
 before the cursor; or a non-zero `integer_count`) with the plain `i` predicate — not reachable from
@@ -466,5 +485,109 @@ def parseNumber_no_panic_debug_full : Prop :=
     isValidOptionsPunctuation c.feats c.fmt o.exp o.dp = true →
     (c.feats.radix = true → c.feats.powerOfTwo = true) → NoCaseClash c o → RescanSafe c →
     NoPanicNoFault (parseFloatSyntax c o isPartial input)
+
+/-- hypothesis set of the full class: integer / fraction component with any separator predicate except I+T+C (I+T+C on
+the integer without base prefix allowed) -/
+structure ValidNoItc (c : Cfg) (o : POpts) : Prop where
+  formatOk : (formatError c.feats c.fmt).isNone = true
+  radixOk : checkRadix c.feats c.fmt = true
+  featsOk : c.feats.radix = true → c.feats.powerOfTwo = true
+  optsOk : isValidOptionsPunctuation c.feats c.fmt o.exp o.dp = true
+  noClash : NoCaseClash c o
+  rescanSafe : RescanSafe c
+
+open LexVerif.Proof.PNDebug in
+/-- entry points, any `debug` value, class `ValidNoItc` -/
+theorem parseFloatSyntax_no_panic_noitc (c : Cfg) (o : POpts) (h : ValidNoItc c o) (isPartial : Bool)
+    (input : List Nat) : NoPanicNoFault (parseFloatSyntax c o isPartial input) := by
+  cases hbc : c.bytesContiguous with
+  | true => exact parseFloatSyntax_no_panic c ⟨h.formatOk, h.radixOk, h.featsOk, hbc⟩ o isPartial input
+  | false =>
+    obtain ⟨e1, e2, e3⟩ : matchesB c.fmt.digitSeparator o.exp (c.caseSensitiveExponent && c.feats.format) = false ∧
+        (c.baseSuffix ≠ 0 → matchesB c.fmt.digitSeparator c.baseSuffix c.caseSensitiveBaseSuffix = false) ∧
+        (c.basePrefix ≠ 0 → matchesB c.fmt.digitSeparator c.basePrefix c.caseSensitiveBasePrefix = false) := by
+      rcases h.noClash with hb | hc
+      · rw [hbc] at hb; cases hb
+      · exact hc
+    have cx : Ctx c := Ctx.of_valid_gen c h.formatOk h.radixOk h.featsOk (fun hp => Or.inr (e3 hp)) (fun hs => Or.inr (e2 hs))
+    have hf : c.feats.format = true := format_of_nbc cx hbc
+    have ox : OCtx c o := by
+      refine ⟨?_, Or.inr e1⟩
+      right
+      have := h.optsOk
+      unfold isValidOptionsPunctuation at this
+      intro hdp
+      simp [hf, hdp] at this
+    have hitc : ∀ k, (k = .integer ∨ k = .fraction) → c.skip k = .pred .itc → hasItc c k = true := by
+      intro k hk hs
+      have hfl : c.sepFlags k = ⟨true, false, true, true⟩ := by
+        rcases hk with rfl | rfl <;> exact flags_of_skip_itc _ hs
+      simp [hasItc, hbc, hfl]
+    have hI : CompOk c .integer (c.basePrefix = 0) := compOk_of_skip cx .integer _ (by
+      intro hs
+      rcases h.rescanSafe.2 with h1 | h1
+      · rw [hitc .integer (Or.inl rfl) hs] at h1; cases h1
+      · exact h1)
+    have hF : CompOk c .fraction False := compOk_of_skip cx .fraction _ (by
+      intro hs
+      have h1 := h.rescanSafe.1
+      rw [hitc .fraction (Or.inr rfl) hs] at h1; cases h1)
+    have hs := parseFloatSyntax_safe2 cx hbc hI hF (prefix_not_digit_sep cx h.formatOk e3) o ox
+      (dp_not_digit h.formatOk o h.optsOk) isPartial input
+    exact ⟨hs.not_panic, hs.not_fault⟩
+
+/-- C10, debug-assertion build, entry points, class `ValidNoItc` -/
+theorem parseFloatSyntax_no_panic_debug_noitc (c : Cfg) (o : POpts) (h : ValidNoItc c o) (_hd : c.debug = true)
+    (isPartial : Bool) (input : List Nat) : NoPanicNoFault (parseFloatSyntax c o isPartial input) :=
+  parseFloatSyntax_no_panic_noitc c o h isPartial input
+
+/-- **the full statement holds** -/
+theorem parseNumber_no_panic_debug_full_proved : parseNumber_no_panic_debug_full := by
+  intro c o isPartial input hfe hcr hopt hfeats hclash hres
+  exact parseFloatSyntax_no_panic_noitc c o ⟨hfe, hcr, hfeats, hopt, hclash, hres⟩ isPartial input
+
+/-! ### non-vacuity -/
+
+/-- `sep_i`: separator `_`, plain internal predicate `i` on integer, fraction and exponent -/
+def sepI : Format := ⟨0xa0a0a000000005f000000070000000c⟩
+
+example : ValidNoItc ⟨fFormat, sepI, true⟩ {} :=
+  ⟨by decide +kernel, by decide +kernel, by decide, by decide +kernel,
+   Or.inr ⟨by decide +kernel, fun h => absurd (by decide +kernel) h, fun h => absurd (by decide +kernel) h⟩,
+   ⟨by decide +kernel, Or.inl (by decide +kernel)⟩⟩
+
+/-- 25 digits with separators: the many-digits re-scan of both stored slices (`1_2`, `3_1234567890123456789012`)
+runs and returns `ok` in the debug build — `1_2.3_1234567890123456789012` -/
+example : (match parseFloatSyntax ⟨fFormat, sepI, true⟩ {} false
+      ([49, 95, 50, 46, 51, 95] ++ inFrac.drop 3 ++ [48, 49, 50]) with
+    | .ok (.number n cnt) => n.manyDigits && cnt == 28 && n.integer == [49, 95, 50]
+    | _ => false) = true := by decide +kernel
+
+/-- the first pass stops on a separator its predicate refuses (`_` before `.`), the 23-digit integer slice is
+re-scanned, then `parse_complete` rejects the input: an ordinary error, no panic — `12345678901234567890123_.5` -/
+example : (match parseFloatSyntax ⟨fFormat, sepI, true⟩ {} false (inFrac.drop 3 ++ [48, 49, 50, 51, 95, 46, 53]) with
+    | .error (.err k i) => k == "InvalidDigit" && i == 23
+    | _ => false) = true := by decide +kernel
+
+/-- OCAML_LITERAL (integer I+T+C, no base prefix; fraction I+L+T+C) is in the class -/
+example : ValidNoItc ⟨fFormat, ocamlLiteral, true⟩ {} :=
+  ⟨by decide +kernel, by decide +kernel, by decide, by decide +kernel,
+   Or.inr ⟨by decide +kernel, fun h => absurd (by decide +kernel) h, fun h => absurd (by decide +kernel) h⟩,
+   ⟨by decide +kernel, Or.inr (by decide +kernel)⟩⟩
+
+/-- `radix+format`, base prefix `d`, predicates I+L on the integer and L+T+C on the fraction -/
+def prefixDSepMix : Format := ⟨0xa0a0a006400005f000004990000000c⟩
+
+example : ValidNoItc ⟨fRadixFormat, prefixDSepMix, true⟩ {} :=
+  ⟨by decide +kernel, by decide +kernel, by decide, by decide +kernel,
+   Or.inr ⟨by decide +kernel, fun h => absurd (by decide +kernel) h, fun _ => by decide +kernel⟩,
+   ⟨by decide +kernel, Or.inl (by decide +kernel)⟩⟩
+
+/-- … `0d_1_2._31234567890123456789012_`: separators behind the prefix letter, behind the point and at the end; both
+stored slices (`_1_2`, `_31234567890123456789012_`) start with a separator and are re-scanned -/
+example : (match parseFloatSyntax ⟨fRadixFormat, prefixDSepMix, true⟩ {} false
+      ([48, 100, 95, 49, 95, 50, 46, 95, 51] ++ inFrac.drop 3 ++ [48, 49, 50, 95]) with
+    | .ok (.number n cnt) => n.manyDigits && cnt == 32 && n.integer == [95, 49, 95, 50]
+    | _ => false) = true := by decide +kernel
 
 end LexVerif.Props.C10Debug
